@@ -83,8 +83,8 @@ def _key_of(msg, obj):
 # operation table: (name, operand)
 OPS = ([("append", k) for k in range(8)] + [("pop", j) for j in range(4)] + [("cleanup", 0), ("refresh", 0)] +
        [("setlist", 0), ("setlist", 1), ("extend", 0)] + [("setitem", (j, k)) for j in (0, 1) for k in (8, 9, 10)] +
-       [("rename", 0), ("rename", 1)] + [("update", 0), ("update", 1), ("update", 2)])
-SMALL = [0, 1, 2, 3, 8, 9, 10, 12, 14, 17, 20, 25, 27]        # reduced alphabet for longer sequences (indices into OPS)
+       [("rename", 0), ("rename", 1)] + [("update", 0), ("update", 1), ("update", 2)] + [("rename", 2), ("append", 11)])
+SMALL = [0, 1, 2, 3, 8, 9, 10, 14, 17, 20, 27, 28, 29]        # reduced alphabet for longer sequences (indices into OPS)
 
 
 def apply(msg, ref, A, used, op):
@@ -132,13 +132,30 @@ def apply(msg, ref, A, used, op):
         msg[j] = A[k]
         ref[j] = A[k]
     elif name == "rename":
-        if arg >= len(ref):
+        if arg >= len(ref) and arg != 2:
             return None
-        key = _key_of(msg, ref[arg])
+        key = _key_of(msg, ref[arg]) if arg != 2 else "-"
         if key is None:
             return "no unique name for a listed AVP"
+        new_key = "custom_name_avp" if arg == 0 else "other_custom_avp__3"
+        if arg == 2:
+            # the LAST listed AVP that carries an index-suffixed name moves onto the lowest free sibling name of its family
+            # (fills the hole a pop left in the middle): legal, keeps the list, but re-orders the names inside the object
+            import re
+            new_key = None
+            for r in reversed(ref):
+                k = _key_of(msg, r)
+                mt = re.fullmatch(r"(.+_avp)__(\d+)", k or "")
+                if mt:
+                    names = _names(msg)
+                    free = [i for i in range(1, int(mt.group(2))) if f"{mt.group(1)}__{i}" not in names]
+                    if free:
+                        key, new_key = k, f"{mt.group(1)}__{free[0]}"
+                    break
+            if new_key is None:
+                return None
         try:
-            msg.update_key(key, "custom_name_avp" if arg == 0 else "other_custom_avp__3")
+            msg.update_key(key, new_key)
         except LIB:
             pass                              # e.g. target name taken: must leave the state as it was
     elif name == "update":
@@ -182,7 +199,8 @@ def _start(kind, A, used):
     msg = DiameterMessage(DiameterHeader(command_code=272, application_id=4))
     ref = []
     seqs = {"empty": [], "three_rr": [0, 1, 2, 3], "gap": [0, 1, 2, 3, ("pop", 2)], "equal_popped": [1, 2, ("pop", 1)],
-            "unknowns": [4, 5], "mixed": [7, 0, 6, 4], "renamed": [0, 1, ("rename", 1)]}
+            "unknowns": [4, 5], "mixed": [7, 0, 6, 4], "renamed": [0, 1, ("rename", 1)],
+            "four_rr_gap": [0, 1, 2, 3, 8, ("pop", 2)]}
     for step in seqs[kind]:
         op = ("append", step) if isinstance(step, int) else step
         err = apply(msg, ref, A, used, op)
@@ -234,9 +252,9 @@ def _run(chosen):
 
 
 def queries(tier, seed):
-    t = 150 if tier == "quick" else 1800
+    t = 300 if tier == "quick" else 1800
     qs = []
-    starts = ["empty", "three_rr", "gap", "equal_popped", "unknowns", "mixed", "renamed", "typed"]
+    starts = ["empty", "three_rr", "gap", "equal_popped", "unknowns", "mixed", "renamed", "typed", "four_rr_gap"]
 
     def q(st, alpha, n):
         nops = len(OPS) if alpha == "full" else len(SMALL)
